@@ -59,6 +59,10 @@ type FuncCFG struct {
 	Type   *ast.FuncType
 	G      *cfg.CFG
 	params map[types.Object]bool
+	// position of each parameter in the parameter list (receiver: -1): "param#i" symbols are rename-proof
+	paramIdx map[types.Object]int
+	// for a function literal: the CFG of the enclosing function (definitions of captured variables live there)
+	outer *FuncCFG
 	// single-definition locals: object -> defining RHS expressions
 	defs map[types.Object][]defSite
 	// case expression -> switch tag expression
@@ -104,9 +108,41 @@ func (p *Program) NewLitCFG(info *types.Info, name string, lit *ast.FuncLit) *Fu
 	return p.newCFG(info, name, lit.Type, lit.Body, nil)
 }
 
+// NewLitCFGIn is NewLitCFG for a literal inside outer: captured variables are resolved through outer's definitions.
+func (p *Program) NewLitCFGIn(outer *FuncCFG, name string, lit *ast.FuncLit) *FuncCFG {
+	f := p.newCFG(outer.Info, name, lit.Type, lit.Body, nil)
+	if f != nil {
+		f.outer = outer
+	}
+	return f
+}
+
 func (p *Program) newCFG(info *types.Info, name string, ft *ast.FuncType, body *ast.BlockStmt, recv *ast.FieldList) *FuncCFG {
 	f := &FuncCFG{P: p, Info: info, Name: name, Body: body, Type: ft,
-		params: map[types.Object]bool{}, defs: map[types.Object][]defSite{}, caseTag: map[ast.Expr]ast.Expr{}, preds: map[*cfg.Block][]*cfg.Block{}}
+		params: map[types.Object]bool{}, paramIdx: map[types.Object]int{}, defs: map[types.Object][]defSite{}, caseTag: map[ast.Expr]ast.Expr{}, preds: map[*cfg.Block][]*cfg.Block{}}
+	if recv != nil {
+		for _, fld := range recv.List {
+			for _, n := range fld.Names {
+				if o := info.Defs[n]; o != nil {
+					f.paramIdx[o] = -1
+				}
+			}
+		}
+	}
+	if ft.Params != nil {
+		pi := 0
+		for _, fld := range ft.Params.List {
+			if len(fld.Names) == 0 {
+				pi++
+			}
+			for _, n := range fld.Names {
+				if o := info.Defs[n]; o != nil {
+					f.paramIdx[o] = pi
+				}
+				pi++
+			}
+		}
+	}
 	f.G = cfg.New(body, func(c *ast.CallExpr) bool { return !noReturnCall(info, c) })
 	for _, fl := range []*ast.FieldList{recv, ft.Params, ft.Results} {
 		if fl == nil {
@@ -262,6 +298,8 @@ func (f *FuncCFG) mentions(n ast.Node, blk *cfg.Block, out map[string]bool, seen
 				out["op:&^"] = true
 			case token.OR_ASSIGN:
 				out["op:|"] = true
+			case token.ADD_ASSIGN:
+				out["op:+="] = true
 			}
 		}
 		id, ok := x.(*ast.Ident)
@@ -281,8 +319,18 @@ func (f *FuncCFG) mentions(n ast.Node, blk *cfg.Block, out map[string]bool, seen
 			return true
 		}
 		seen[v] = true
+		if isErrorType(v.Type()) {
+			out["var:error"] = true // any variable of type error, whatever its name
+		}
 		if f.params[v] {
 			out["param:"+v.Name()] = true
+			if pi, ok := f.paramIdx[v]; ok {
+				if pi < 0 {
+					out["recv"] = true
+				} else {
+					out[fmt.Sprintf("param#%d", pi)] = true
+				}
+			}
 			if len(f.defs[v]) == 0 {
 				return true
 			}
@@ -291,6 +339,19 @@ func (f *FuncCFG) mentions(n ast.Node, blk *cfg.Block, out map[string]bool, seen
 		// local: named, and expanded through definitions
 		if !f.params[v] {
 			out["local:"+v.Name()] = true
+			// rename-proof handle: "local<-SYM" for every program symbol (or parameter position) that occurs
+			// directly in one of the local's definitions
+			df := f
+			if len(f.defs[v]) == 0 && f.outer != nil {
+				df = f.outer // captured variable
+			}
+			for _, d := range df.defs[v] {
+				for _, r := range d.rhs {
+					for ds := range df.shallowSyms(r) {
+						out["local<-"+ds] = true
+					}
+				}
+			}
 		}
 		ds := f.defs[v]
 		var use []defSite
@@ -316,6 +377,36 @@ func (f *FuncCFG) mentions(n ast.Node, blk *cfg.Block, out map[string]bool, seen
 		}
 		return true
 	})
+}
+
+// shallowSyms: program symbols and parameter positions occurring directly in n (no expansion of locals).
+func (f *FuncCFG) shallowSyms(n ast.Node) map[string]bool {
+	out := map[string]bool{}
+	inspectNoLit(n, func(x ast.Node) bool {
+		id, ok := x.(*ast.Ident)
+		if !ok {
+			return true
+		}
+		o := f.Info.ObjectOf(id)
+		if o == nil {
+			return true
+		}
+		if s := symOf(o); s != "" {
+			out[s] = true
+			return true
+		}
+		if v, ok := o.(*types.Var); ok {
+			if pi, isP := f.paramIdx[v]; isP {
+				if pi < 0 {
+					out["recv"] = true
+				} else {
+					out[fmt.Sprintf("param#%d", pi)] = true
+				}
+			}
+		}
+		return true
+	})
+	return out
 }
 
 func containsNode(outer, inner ast.Node) bool {
@@ -456,6 +547,31 @@ func (f *FuncCFG) evalCond(e ast.Expr, assume map[string]bool) (bool, bool) {
 			}
 			if val, ok := assume[s]; ok {
 				return val, true
+			}
+			if v, ok := o.(*types.Var); ok {
+				if pi, isP := f.paramIdx[v]; isP && pi >= 0 {
+					if val, ok := assume[fmt.Sprintf("param#%d", pi)]; ok {
+						return val, true
+					}
+				}
+				// "local<-SYM": the local one of whose definitions mentions SYM directly (rename-proof way to name a local)
+				if !f.params[v] {
+					df := f
+					if len(f.defs[v]) == 0 && f.outer != nil {
+						df = f.outer
+					}
+					for k, val := range assume {
+						if strings.HasPrefix(k, "local<-") {
+							for _, d := range df.defs[v] {
+								for _, r := range d.rhs {
+									if df.shallowSyms(r)[k[7:]] {
+										return val, true
+									}
+								}
+							}
+						}
+					}
+				}
 			}
 			if c, ok := o.(*types.Const); ok && c.Val().String() == "true" {
 				return true, true
@@ -888,7 +1004,7 @@ func (f *FuncCFG) CheckGateIn(region ast.Node, from []*cfg.Block, targets map[*c
 			}
 			closed := true
 			for s := range f.Mentions(c, b) {
-				if strings.HasPrefix(s, "param:") || strings.HasPrefix(s, "local:") || strings.HasPrefix(s, "type:") || strings.HasPrefix(s, "builtin.") {
+				if strings.HasPrefix(s, "param:") || strings.HasPrefix(s, "param#") || s == "recv" || strings.HasPrefix(s, "local:") || strings.HasPrefix(s, "local<-") || s == "var:error" || strings.HasPrefix(s, "type:") || strings.HasPrefix(s, "builtin.") {
 					continue
 				}
 				if !allowed[s] {
